@@ -528,4 +528,7 @@ def run(cx):
     from . import c02
     cx.borrow(c01.r1_run_guard, "C01.R1", "C04.R5", "single-pass, incremental and pooled drivers evaluate each sub-graph through dr.run with its own broker")
     cx.borrow(c02.r5b_nothing_else_suppresses, "C02.R5b", "C04.R5", "single-pass, incremental and pooled drivers evaluate each sub-graph through dr.run with its own broker")
+    # recorded failures are part of the compared state: what is recorded against a registry point must not depend on which of its failing
+    # implementations ran first (C03.R7 re-checked: the mirror loop records unconditionally)
+    cx.borrow(c03.r7_registry_mirror, "C03.R7", "C04.R5", "single-pass, incremental and pooled drivers evaluate each sub-graph through dr.run with its own broker")
     cx.guard(r6_set_iteration, kinds, mods)
